@@ -496,7 +496,8 @@ def prepare(case):
                 wshape=wshape, **extra)
         elif kind == 'lastbal':
             # aggregate path: last(balance) per group, every selected row evaluates balance
-            q = sql('account, last(balance)', sel, group='account')
+            lim = [None, None, 1, 2][item[3] % 4]
+            q = sql('account, last(balance)', sel, group='account') + (f' LIMIT {lim}' if lim is not None else '')
             r = execute(q)
             scanned, gk = [], []
             for n, (e, p) in zip(names, rows):
@@ -508,7 +509,7 @@ def prepare(case):
                     gk.append(p.account)
             wm = 'None' if sel[2] is None else '(Some WMask)'
             add(kind, q, [[a, canon_inv(v)] for a, v in r], f'o_query {wm} [TBalance] {clist(scanned)}',
-                ['lastbal', A_SC], sel=sel[0], gk=gk)
+                ['lastbal', A_SC], sel=sel[0], gk=gk, limit=lim)
         elif kind == 'firstbal':
             # first(balance): the aggregator evaluates balance only on the first row of each group
             both = item[2] % 2 == 0
@@ -640,6 +641,29 @@ def prepare(case):
             add(kind, q1 + ' ; ' + q2 + ' (each executed twice)', {'runs': runs, 'mutated': [i for i, (b, a) in enumerate(zip(before, after)) if a != b],
                                                                'before': before, 'after': after},
                 expr, ['usertable', A_SC], sel='all', keys=[repr(g) for g in order], nrows=len(trows))
+        elif kind == 'grouplimit':
+            # GROUP BY ... LIMIT n without ORDER BY: the first n groups in first-appearance order, each with its FULL sum
+            gname, gexpr, gfun = [('account', 'account', lambda e, p: p.account),
+                                  ('currency', 'currency', lambda e, p: p.units.currency),
+                                  ('narration', 'narration', lambda e, p: e.narration),
+                                  ('cost_currency', 'cost_currency', lambda e, p: p.cost.currency if p.cost else None),
+                                  ][item[2] % 4]
+            selrows = [(n, gfun(e, p)) for n, (e, p) in zip(names, rows) if sel[3](e, p)]
+            order = group_firstseen([g for _, g in selrows])
+            ng = len(order)
+            lim = [1, 1, 2, max(ng - 1, 0), ng, ng + 1, 0, 3][item[3] % 8]
+            one = 10 ** B_SC
+            q = sql(f'{gexpr}, sum(position), sum(units(position)), cost(sum(position)), sum(position)', sel, group=gexpr) \
+                + f' LIMIT {lim}'
+            r = execute(q)
+            kept = order[:lim]
+            gl = [clist([n for n, g in selrows if g == k]) for k in kept]
+            mrows = [[f'sum_pos {g}', f'sum_amt (map get_units {g})', f'inventory_cost {one} (sum_pos {g})', f'sum_pos {g}']
+                     for g in gl]
+            im = {'keys': [repr(row[0]) for row in r], 'rows': [[canon_inv(v) for v in row[1:]] for row in r]}
+            add(kind, q, im, 'OL ' + clist(['OL ' + clist([f'o_inv ({x})' for x in mr]) for mr in mrows]),
+                ['invrows', [A_SC, A_SC, A_SC + B_SC, A_SC]], sel=sel[0], keys=[repr(k) for k in kept],
+                limit_vs_groups='lt' if lim < ng else 'ge')
         elif kind == 'journal':
             # JOURNAL is sugar for SELECT date, flag, ..., account, f(position), f(balance) WHERE account ~ pattern
             pat = ['Broker', 'Bank', 'Assets', 'Expenses|Income', ''][item[3] % 5]
@@ -713,7 +737,7 @@ def gen_plan(rng, tier):
     nsel = 12
     k = 11 if tier == 'quick' else 20
     kinds = ['sum', 'units', 'cost', 'value', 'convert', 'convert', 'group', 'balance', 'balance', 'balance', 'balance',
-             'lastbal', 'firstbal', 'andempty', 'sumprice', 'journal', 'balances', 'subagg', 'subagg', 'balagg', 'usertable']
+             'lastbal', 'firstbal', 'andempty', 'sumprice', 'journal', 'balances', 'subagg', 'subagg', 'balagg', 'usertable', 'grouplimit', 'grouplimit']
     for _ in range(k):
         kind = rng.choice(kinds)
         s = rng.randrange(nsel) if rng.random() < 0.75 else 0
@@ -809,6 +833,8 @@ def compare(check, mx, cur, lab):
                 order.append(g)
             exp[g] = v
         e = [[g, exp[g]] for g in order]
+        if check.get('limit') is not None:
+            e = e[:check['limit']]
         if im != e:
             probs.append(('lastbal', f'last(balance) per account {im} != prefix sums {e}'))
     elif dec[0] == 'firstbal':
@@ -1030,7 +1056,8 @@ def run(tier, rng):
     hist = {'query_kinds': {}, 'selections': {}, 'postings_per_ledger': {}, 'txn_kinds': {}, 'balance_refs': {},
             'where_shapes': {}, 'ledgers_with_load_errors': 0, 'lots_per_ledger': {}, 'reductions_per_ledger': {},
             'two_connections': 0, 'convert_targets': {}, 'date_kinds': {}, 'key_deleted_events': 0, 'price_points': {},
-            'value_branches_positions': {}, 'convert_branches_positions': {}, 'empty_selections': 0}
+            'value_branches_positions': {}, 'convert_branches_positions': {}, 'empty_selections': 0,
+            'group_limit_vs_groups': {}}
     nchecks = 0
     lazy_best, lazy_count = {}, {}
     nontrivial = set()
@@ -1067,6 +1094,9 @@ def run(tier, rng):
                     hb = hist[chk['kind'] + '_branches_positions']
                     for b, k in chk['branches'].items():
                         hb[b] = hb.get(b, 0) + k
+                if chk['kind'] == 'grouplimit':
+                    hist['group_limit_vs_groups'][chk['limit_vs_groups']] = \
+                        hist['group_limit_vs_groups'].get(chk['limit_vs_groups'], 0) + 1
                 if chk.get('nsel') == 0:
                     hist['empty_selections'] += 1
                 if info['postings'] >= 2:
@@ -1130,7 +1160,9 @@ def run(tier, rng):
                 'sum(a), sum(b), first(b), last(a) and first(inv), sum(inv), last(inv), sum(units(inv)), units(sum(inv)) over '
                 'Inventory columns holding group sums; first/sum/last(balance) in one query; a persistent user table with an '
                 'Inventory column (one row per posting or per transaction) queried twice, grouped and ungrouped, with the '
-                'input inventories checked unchanged afterwards; 1 in 4 ledgers alternate two connections; '
+                'input inventories checked unchanged afterwards; GROUP BY account/currency/narration/cost_currency ... LIMIT n without '
+                'ORDER BY (n = 0, 1, 2, 3, groups-1, groups, groups+1; also on last(balance)): the first n groups in first-appearance '
+                'order, each with its full sum; 1 in 4 ledgers alternate two connections; '
                 'plus random add_position/add_inventory sequences on beancount Inventory directly. '
                 'non-trivial = distinct (query, ledger) with >= 2 postings',
         'samples': samples,
